@@ -784,7 +784,7 @@ func TestVerifC17Config(t *testing.T) {
 	// ---- config.New
 	n := VEnvInt("VERIF_C17_CONFIG_N", 4000)
 	if VThorough() {
-		n = VEnvInt("VERIF_C17_CONFIG_N", 50000)
+		n = VEnvInt("VERIF_C17_CONFIG_N", 40000)
 	}
 	n /= shards
 	emitC := func(in string) {
@@ -873,7 +873,7 @@ func TestVerifC17Config(t *testing.T) {
 	// ---- Merger over real directory trees
 	nm := VEnvInt("VERIF_C17_MERGE_N", 1000)
 	if VThorough() {
-		nm = VEnvInt("VERIF_C17_MERGE_N", 12000)
+		nm = VEnvInt("VERIF_C17_MERGE_N", 10000)
 	}
 	nm /= shards
 	base, err := os.MkdirTemp("", "c17m")
